@@ -25,8 +25,10 @@ Print Assumptions c12_propagation.
    event the volume, remote-volume, EC-shard and max-volume counters of every disk, server,
    rack, data center and the cluster equal the recomputation from what is registered beneath
    them ([exact_b], the oracle the correspondence check evaluates on the implementation).
-   The faithful model violates it in five ways; each is exhibited and the property is proved for
-   every history that avoids the five decidable triggers. *)
+   With the three repairs of data_node.go / data_node_ec.go (incremental deletes, per-volume EC
+   counters, per-disk-type max delta) the faithful model violates it in ONE remaining way
+   (UpdateEcShards keys EC volumes by id only); that one is exhibited and the property is proved
+   for every history that avoids its decidable trigger. *)
 
 (* Strongest true statement: no trigger along the run  ==>  exact after every event. *)
 Theorem c12_counts_exact_partial : forall ops orders,
@@ -53,61 +55,52 @@ Theorem c12_step_all_iff_some_order : forall st o s,
 Proof. exact step_all_spec. Qed.
 Print Assumptions c12_step_all_iff_some_order.
 
-(* ---- the five refutations of the full statement ---- *)
+(* ---- the remaining refutation of the full statement ---- *)
 Definition w_n1 : path := ["dc1"; "r1"; "n1:80"]%string.
 Definition w_join (maxs : list (string * Z)) : op := Join "dc1" "r1" "n1:80" maxs.
 Definition refutes (k : N) (ops : list op) : Prop :=
   forallb wf_op ops = true /\ first_trigger [] init_state ops = Some k /\
   all_exact (run [] init_state ops) (ref_run [] ops) = false.
 
-(* k = 0: an incremental delete of a volume that is not registered decrements the counters *)
-Theorem c12_counts_exact_refuted_stale_delete :
-  refutes 0 [w_join [(""%string, 10)]; IncVol w_n1 [] [(7%N, ""%string)]].
-Proof. exact (conj eq_refl (conj eq_refl eq_refl)). Qed.
-Print Assumptions c12_counts_exact_refuted_stale_delete.
-
-(* k = 1: two registered EC volumes gain a shard in one full EC heartbeat: 5 counted, 4 registered *)
-Theorem c12_counts_exact_refuted_ec_cumulative :
-  refutes 1 [w_join [(""%string, 10)];
-             FullEc w_n1 [mkE 1 "" 1; mkE 2 "" 1];
-             FullEc w_n1 [mkE 1 "" 3; mkE 2 "" 3]].
-Proof. exact (conj eq_refl (conj eq_refl eq_refl)). Qed.
-Print Assumptions c12_counts_exact_refuted_ec_cumulative.
-
-(* k = 2: the max counts of two disk types change in one heartbeat: the first is applied twice *)
-Theorem c12_counts_exact_refuted_max_shared_delta :
-  refutes 2 [w_join [(""%string, 10); ("ssd"%string, 5)];
-             AdjustMax w_n1 [(""%string, 12); ("ssd"%string, 8)]].
-Proof. exact (conj eq_refl (conj eq_refl eq_refl)). Qed.
-Print Assumptions c12_counts_exact_refuted_max_shared_delta.
-
-(* k = 3: an incremental delete of a remote volume leaves remoteVolumeCount behind *)
-Theorem c12_counts_exact_refuted_remote_delete :
-  refutes 3 [w_join [(""%string, 10)];
-             FullVol w_n1 [mkV 1 "" true true];
-             IncVol w_n1 [] [(1%N, ""%string)]].
-Proof. exact (conj eq_refl (conj eq_refl eq_refl)). Qed.
-Print Assumptions c12_counts_exact_refuted_remote_delete.
-
-(* k = 4: one EC volume id listed twice in a full EC heartbeat: both counted, one registered *)
+(* k = 0: one EC volume id listed twice in a full EC heartbeat: both counted, one registered *)
 Theorem c12_counts_exact_refuted_ec_duplicate :
-  refutes 4 [w_join [(""%string, 10)];
+  refutes 0 [w_join [(""%string, 10)];
              FullEc w_n1 [mkE 1 "" 1; mkE 1 "" 2]].
 Proof. exact (conj eq_refl (conj eq_refl eq_refl)). Qed.
 Print Assumptions c12_counts_exact_refuted_ec_duplicate.
 
+(* the same finding: an EC volume reported on another disk type than the one it is registered on *)
+Theorem c12_counts_exact_refuted_ec_moved :
+  refutes 0 [w_join [(""%string, 10); ("ssd"%string, 4)];
+             FullEc w_n1 [mkE 1 "" 1];
+             FullEc w_n1 [mkE 1 "ssd" 3]].
+Proof. exact (conj eq_refl (conj eq_refl eq_refl)). Qed.
+Print Assumptions c12_counts_exact_refuted_ec_moved.
+
+(* the witnesses of the four repaired defects are now trigger-free and exact *)
+Definition repaired (ops : list op) : Prop :=
+  forallb wf_op ops = true /\ first_trigger [] init_state ops = None /\
+  all_exact (run [] init_state ops) (ref_run [] ops) = true.
+Example c12_repaired_witnesses :
+  repaired [w_join [(""%string, 10)]; IncVol w_n1 [] [(7%N, ""%string)]] /\
+  repaired [w_join [(""%string, 10)]; FullEc w_n1 [mkE 1 "" 1; mkE 2 "" 1]; FullEc w_n1 [mkE 1 "" 3; mkE 2 "" 3]] /\
+  repaired [w_join [(""%string, 10); ("ssd"%string, 5)]; AdjustMax w_n1 [(""%string, 12); ("ssd"%string, 8)]] /\
+  repaired [w_join [(""%string, 10)]; FullVol w_n1 [mkV 1 "" true true]; IncVol w_n1 [] [(1%N, ""%string)]].
+Proof. repeat split; vm_compute; reflexivity. Qed.
+
 (* ---- non-vacuity: a trigger-free history with two servers, two disk types, volumes (one remote),
-        EC shards, a max-count change and an unregistration; it is well formed, meets no trigger,
+        EC shards (two EC volumes changing in one full heartbeat), max counts of two disk types
+        changing at once, a stale and a remote incremental delete, and an unregistration; it is well formed, meets no trigger,
         registers something, and (by the partial theorem) is exact after every event ---- *)
 Definition ex_n2 : path := ["dc1"; "r2"; "n2:80"]%string.
 Definition ex_history : list op :=
   [ w_join [(""%string, 5); ("ssd"%string, 3)];
     FullVol w_n1 [mkV 1 "" false false; mkV 2 "ssd" true true];
-    IncVol w_n1 [(3%N, ""%string)] [(1%N, ""%string)];
-    FullEc w_n1 [mkE 10 "" 3];
+    IncVol w_n1 [(3%N, ""%string)] [(1%N, ""%string); (9%N, ""%string)];
+    FullEc w_n1 [mkE 10 "" 3; mkE 11 "ssd" 1];
     IncEc w_n1 [mkE 10 "" 4] [mkE 10 "" 1];
-    FullEc w_n1 [mkE 10 "" 14; mkE 11 "ssd" 1];
-    AdjustMax w_n1 [(""%string, 7); ("ssd"%string, 3)];
+    FullEc w_n1 [mkE 10 "" 14; mkE 11 "ssd" 3];
+    AdjustMax w_n1 [(""%string, 7); ("ssd"%string, 6)];
     Join "dc1" "r2" "n2:80" [(""%string, 4)];
     FullVol ex_n2 [mkV 3 "" false false];
     Unregister w_n1 ].
@@ -116,7 +109,8 @@ Example c12_example :
   all_exact (run [] init_state ex_history) (ref_run [] ex_history) = true /\
   (exists s, nth_error (run [] init_state ex_history) 6 = Some s /\
              volumeCount (U s [] ""%string) = 1 /\ remoteVolumeCount (U s [] "ssd"%string) = 1 /\
-             ecShardCount (U s ["dc1"%string] ""%string) = 3 /\ maxVolumeCount (U s w_n1 ""%string) = 7).
+             ecShardCount (U s ["dc1"%string] ""%string) = 3 /\ ecShardCount (U s ["dc1"%string] "ssd"%string) = 2 /\
+             maxVolumeCount (U s w_n1 ""%string) = 7 /\ maxVolumeCount (U s w_n1 "ssd"%string) = 6).
 Proof.
   split; [vm_compute; reflexivity|]. split; [vm_compute; reflexivity|]. split; [vm_compute; reflexivity|].
   eexists. split; [vm_compute; reflexivity|]. repeat split; vm_compute; reflexivity.
